@@ -3,6 +3,7 @@ package main
 // Verifying one function: entry state, contract, SMT emission, discharge.
 
 import (
+	"golang.org/x/tools/go/ssa/ssautil"
 	"fmt"
 	"go/types"
 	"os"
@@ -173,6 +174,18 @@ func (x *Exec) run() {
 	for i, p := range fn.Params {
 		env.vars[p.Name()] = SVal{args[i], goT(p.Type())}
 	}
+	// a closure verified on its own (goroutine bodies): captured variables are named in its contract by
+	// their entry values
+	fvVals := map[string]SVal{}
+	for i, fv := range fn.FreeVars {
+		elem := fv.Type().Underlying().(*types.Pointer).Elem()
+		pl := x.ptrPlace(binds[i], elem)
+		if pl.Ref.S != "" {
+			x.assume(Not(Eq(pl.Ref, IntLit(0))))
+		}
+		fvVals[fv.Name()] = SVal{x.loadPlace(st, pl), goT(elem)}
+		env.vars[fv.Name()] = fvVals[fv.Name()]
+	}
 	if x.fc != nil {
 		for _, g := range x.fc.Ghosts {
 			v := x.evalClauseValue(env, g, x.key)
@@ -188,6 +201,16 @@ func (x *Exec) run() {
 			st.pc = x.andPC(st.pc, g)
 		}
 	}
+	if pk := x.pkgOf(fn); pk != nil {
+		for _, c := range x.C.GlobalInvs[pk.Name()] {
+			if viol := x.globalInvStores(pk, c); viol != "" {
+				sfail("globalinv %q: %s", c.Text, viol)
+			}
+			g := x.safeEvalBool(env, c, x.key)
+			st.pc = x.andPC(st.pc, g)
+			x.trusted["globalinv of package "+pk.Name()+" (holds after package initialisation; no function in scope assigns the variables it names - scanned; mutation of slice contents through an alias is not tracked): "+c.Text] = true
+		}
+	}
 	// vacuity guard: the precondition must be satisfiable
 	x.obls = append(x.obls, &Obligation{Name: x.key + "/cover[requires]#1", Kind: "cover", Func: x.key, Text: "requires satisfiable", PC: st.pc, Goal: False, NDecls: len(x.decls), NAssert: len(x.asserts)})
 	entrySt := st.clone()
@@ -200,6 +223,9 @@ func (x *Exec) run() {
 		}
 		if rv != nil {
 			penv.vars["result"] = SVal{rv, goT(resultType(fn))}
+		}
+		for k, v := range fvVals {
+			penv.vars[k] = v
 		}
 		for _, c := range x.fc.Exits {
 			x.ghostAssign(out, penv, c)
@@ -527,3 +553,54 @@ func buildLemmaVC(P *Program, C *Contracts, lm *Lemma) *FuncResult {
 	res.Obls = x.obls
 	return res
 }
+
+
+// globalInvStores scans every function with a body in the loaded program for an assignment to a package-level
+// variable named by the global invariant c (other than in the package initialiser).
+func (x *Exec) globalInvStores(pk *types.Package, c *Clause) string {
+	names := map[string]bool{}
+	walkExpr(c.E, func(e Expr) {
+		if id, ok := e.(*EIdent); ok {
+			names[id.Name] = true
+		}
+	})
+	sp := x.P.Prog.Package(pk)
+	if sp == nil {
+		return ""
+	}
+	globals := map[*ssa.Global]bool{}
+	for n := range names {
+		if g, ok := sp.Members[n].(*ssa.Global); ok {
+			globals[g] = true
+		}
+	}
+	if len(globals) == 0 {
+		return "names no package-level variable"
+	}
+	key := "globalinv-scan:" + pk.Path() + ":" + c.Text
+	if r, ok := scanCache[key]; ok {
+		return r
+	}
+	res := ""
+	for fn := range ssautil.AllFunctions(x.P.Prog) {
+		if fn.Synthetic != "" && fn.Name() == "init" {
+			continue
+		}
+		if fn.Name() == "init" && fn.Pkg == sp {
+			continue
+		}
+		for _, b := range fn.Blocks {
+			for _, ins := range b.Instrs {
+				if s, ok := ins.(*ssa.Store); ok {
+					if g, ok := s.Addr.(*ssa.Global); ok && globals[g] {
+						res = fmt.Sprintf("%s assigns %s", fn.String(), g.Name())
+					}
+				}
+			}
+		}
+	}
+	scanCache[key] = res
+	return res
+}
+
+var scanCache = map[string]string{}
